@@ -160,6 +160,13 @@ pub fn run_cfg(c: &Cfg, idx: usize) -> Result<String, String> {
             sentinel_core::init_with_config(entity(&Cfg { sct: 20, ivt: 10000, sc: 2, iv: 1000, yaml: false, cache: 0 })).map_err(|e| format!("rejected-servable: the default configuration: {}", e))?;
         }
         let before = probe(&format!("c17-before-{}", idx))?;
+        // the early thread has USED the configuration in effect before this initialisation (it
+        // created a node under it), as a worker of a long-running process would have
+        tx.send(format!("c17-early-pre-{}", idx)).unwrap();
+        let early_before = rrx.recv().map_err(|_| "panic: early thread died".to_string())??;
+        if early_before != before {
+            return Err(format!("threads-disagree-before: the initialising thread sees geometry {:?}, a thread spawned just now {:?}", before, early_before));
+        }
         let r = init(&c, &idx.to_string());
         let want = acceptable(&c);
         let verdict = match (r, want) {
